@@ -547,11 +547,85 @@ pub fn large_class_frames() -> Vec<(&'static str, &'static str, Vec<u8>, bool)> 
     out
 }
 
+/// Valid frames spelled by the harness (NOT by the library's encoder: a decoder that fails on a value its own encoder
+/// also refuses would otherwise never be shown that value) with the extreme value of every numeric field
+pub fn extreme_value_frames() -> Vec<(&'static str, Vec<u8>)> {
+    use crate::topic::{field, frame, varint};
+    let mut out: Vec<(&'static str, Vec<u8>)> = Vec::new();
+    let vmax: [u8; 4] = [0xFF, 0xFF, 0xFF, 0x7F]; // 268,435,455
+    for sid in [&vmax[..], &[0x80, 0x80, 0x80, 0x01], &[0xFF, 0xFF, 0x7F], &[0x7F], &[0x01]] {
+        // v5 PUBLISH: subscription identifier, topic alias, message expiry, QoS 2 with pid 65535
+        let mut props = vec![0x0B];
+        props.extend_from_slice(sid);
+        props.extend_from_slice(&[0x23, 0xFF, 0xFF, 0x02, 0xFF, 0xFF, 0xFF, 0xFF]);
+        let mut body = field(b"t");
+        body.extend_from_slice(&[0xFF, 0xFF]);
+        body.extend(varint(props.len()));
+        body.extend(&props);
+        body.extend_from_slice(b"pl");
+        out.push(("v5", frame(0x3D, &body)));
+        // v5 SUBSCRIBE: subscription identifier, pid 65535, every option bit that may be set
+        let mut props = vec![0x0B];
+        props.extend_from_slice(sid);
+        let mut body = vec![0xFF, 0xFF];
+        body.extend(varint(props.len()));
+        body.extend(&props);
+        body.extend(field(b"$share/g/#"));
+        body.push(0x2E);
+        out.push(("v5", frame(0x82, &body)));
+    }
+    // v5 CONNECT: every numeric property at its maximum, keep alive 65535
+    let props: Vec<u8> = vec![0x11, 0xFF, 0xFF, 0xFF, 0xFF, 0x21, 0xFF, 0xFF, 0x27, 0xFF, 0xFF, 0xFF, 0xFF, 0x22, 0xFF, 0xFF, 0x19, 0x01, 0x17, 0x01];
+    let wprops: Vec<u8> = vec![0x18, 0xFF, 0xFF, 0xFF, 0xFF, 0x01, 0x01, 0x02, 0xFF, 0xFF, 0xFF, 0xFF];
+    let mut body = vec![0, 4, b'M', b'Q', b'T', b'T', 5, 0xF6, 0xFF, 0xFF];
+    body.extend(varint(props.len()));
+    body.extend(&props);
+    body.extend(field(b""));
+    body.extend(varint(wprops.len()));
+    body.extend(&wprops);
+    body.extend(field(b"w"));
+    body.extend(field(b"m"));
+    body.extend(field(b"u"));
+    body.extend(field(b"p"));
+    out.push(("v5", frame(0x10, &body)));
+    // v5 CONNACK: numeric properties at their maxima (Maximum QoS 1), highest reason code
+    let props: Vec<u8> = vec![0x11, 0xFF, 0xFF, 0xFF, 0xFF, 0x21, 0xFF, 0xFF, 0x24, 0x01, 0x25, 0x01, 0x27, 0xFF, 0xFF, 0xFF, 0xFF, 0x22, 0xFF, 0xFF,
+                              0x28, 0x01, 0x29, 0x01, 0x2A, 0x01, 0x13, 0xFF, 0xFF];
+    let mut body = vec![0x01, 0x9F];
+    body.extend(varint(props.len()));
+    body.extend(&props);
+    out.push(("v5", frame(0x20, &body)));
+    // v5 DISCONNECT with session expiry maximum; acks with pid 65535
+    out.push(("v5", frame(0xE0, &[0xA2, 0x05, 0x11, 0xFF, 0xFF, 0xFF, 0xFF])));
+    for ctl in [0x40u8, 0x50, 0x62, 0x70] {
+        out.push(("v5", frame(ctl, &[0xFF, 0xFF, if ctl < 0x60 { 0x10 } else { 0x92 }, 0x00])));
+        out.push(("v3", frame(ctl, &[0xFF, 0xFF])));
+    }
+    // v3: keep alive / pid maxima, SUBACK 0x80
+    let mut body = vec![0, 6, b'M', b'Q', b'I', b's', b'd', b'p', 3, 0xF6, 0xFF, 0xFF];
+    body.extend(field(b""));
+    body.extend(field(b"w"));
+    body.extend(field(b"m"));
+    body.extend(field(b"u"));
+    body.extend(field(b"p"));
+    out.push(("v3", frame(0x10, &body)));
+    out.push(("v3", frame(0x90, &[0xFF, 0xFF, 0x80, 0x02, 0x00])));
+    let mut body = field(b"t");
+    body.extend_from_slice(&[0xFF, 0xFF]);
+    out.push(("v3", frame(0x3D, &body)));
+    out
+}
+
 /// feed the large-class frames of one family to `f(origin, bytes, malformed)`
 pub fn large_class_for(fam: &str, f: &mut dyn FnMut(&str, &[u8], bool)) {
     for (fm, m, bytes, bad) in large_class_frames() {
         if fm == fam {
             f(m, &bytes, bad);
+        }
+    }
+    for (fm, bytes) in extreme_value_frames() {
+        if fm == fam {
+            f("valid", &bytes, false);
         }
     }
 }
